@@ -19,6 +19,7 @@ import (
 	"net/url"
 	"os"
 	"path/filepath"
+	"runtime"
 	"sort"
 	"strings"
 	"sync"
@@ -302,6 +303,11 @@ func (w *world) payload(r *hc.Rand, i int, gate bool) interface{} {
 	}
 }
 
+type hangRec struct {
+	Scenario scenario `json:"scenario"`
+	Dump     string   `json:"goroutine_dump"`
+}
+
 type scenario struct {
 	Name     string     `json:"name"`
 	Pipes    []pipeSpec `json:"pipelines"`
@@ -551,6 +557,7 @@ func main() {
 	only := flag.String("only", "", "comma separated scenario names to run (focused search)")
 	replay := flag.String("replay", "", "re-run the scenario of a replay file")
 	list := flag.Bool("list", false, "print the scenarios (JSON lines) instead of running them")
+	wd := flag.Duration("watchdog", 60*time.Second, "per-scenario watchdog")
 	flag.Parse()
 
 	r := hc.NewRand(hc.Seed())
@@ -596,12 +603,38 @@ func main() {
 		return
 	}
 	var results []result
+	var hung *hangRec
 	pairs := map[string]bool{}
 	var sent int64
 	docs := 0
 	var integrity, panics []string
 	for i, sc := range scs {
-		res := runScenario(sc, hc.Seed()*1000+uint64(i), filepath.Join(*out, "files", sc.Name))
+		// per-scenario watchdog: a wedged library must not wedge the check
+		var res result
+		resCh := make(chan result, 1)
+		go func() { resCh <- runScenario(sc, hc.Seed()*1000+uint64(i), filepath.Join(*out, "files", sc.Name)) }()
+		select {
+		case res = <-resCh:
+		case <-time.After(*wd):
+			buf := make([]byte, 4<<20)
+			n := runtime.Stack(buf, true)
+			var keep []string
+			for _, g := range strings.Split(string(buf[:n]), "\n\n") {
+				if strings.Contains(g, "hashicorp/eventlogger") && (strings.Contains(g, "sync.") || strings.Contains(g, "chan ") || strings.Contains(g, "select")) {
+					if len(g) > 2500 {
+						g = g[:2500] + "\n\t..."
+					}
+					keep = append(keep, g)
+				}
+			}
+			if len(keep) > 10 {
+				keep = keep[:10]
+			}
+			hung = &hangRec{Scenario: sc, Dump: strings.Join(keep, "\n\n")}
+		}
+		if hung != nil {
+			break
+		}
 		results = append(results, res)
 		for _, p := range res.Pairs {
 			pairs[p] = true
@@ -624,7 +657,7 @@ func main() {
 	// all ordered neighbour pairs the pipeline grammar allows
 	total := len(filterKinds)*len(filterKinds) + len(filterKinds)*len(fmtKinds) + len(fmtKinds)*len(sinkKinds)
 	summary := map[string]interface{}{"scenarios": len(results), "results": results, "events_sent": sent, "documents_in_sinks": docs,
-		"integrity_failures": integrity, "panics": panics, "neighbour_pairs_covered": pl, "neighbour_pairs_possible": total, "seed": hc.Seed()}
+		"integrity_failures": integrity, "panics": panics, "neighbour_pairs_covered": pl, "neighbour_pairs_possible": total, "seed": hc.Seed(), "hung": hung}
 	js, _ := json.MarshalIndent(summary, "", " ")
 	os.WriteFile(filepath.Join(*out, "stress_summary.json"), js, 0o644)
 	fmt.Printf("stressh: %d scenarios, %d events, %d documents, %d/%d neighbour pairs, %d integrity failures, %d panics\n",
